@@ -5,7 +5,7 @@ From EN Require Import Gen.ParamsC12.
 
 Lemma models_transcribe_the_source_proof :
   fairlock_fast_path_checks_queue = true /\ fairlock_leave_removes_own_waiter = true /\
-  fairlock_cancel_rewakes_when_free = true /\ fairlock_wakes_the_head = true /\
+  fairlock_cancel_rewakes_when_free = true /\ fairlock_cancel_silent_when_held = true /\ fairlock_wakes_the_head = true /\
   tls_whole_packet_enters_backlog_at_once = true /\ tls_bio_read_under_send_lock = true /\
   tls_transport_send_under_send_lock = true.
 Proof. repeat split; reflexivity. Qed.
